@@ -1,6 +1,7 @@
 package pe
 
 import (
+	"strings"
 	"os"
 	"fmt"
 	"go/constant"
@@ -31,6 +32,8 @@ type Hooks struct {
 	Inline func(callee *ssa.Function, depth int) bool
 	// Instr is called before each instruction.
 	Instr func(m *Machine, in ssa.Instruction)
+	// Edge is called whenever a control-flow edge is found executable.
+	Edge func(m *Machine, from, to *ssa.BasicBlock)
 }
 
 // ReturnSite is one reachable return instruction of the root function.
@@ -77,6 +80,8 @@ type Machine struct {
 	init     *heap
 	stack    []*activation
 	Steps    int
+	MaxSteps int
+	Exceeded bool // the step budget ran out: results are incomplete and must not be used
 }
 
 type activation struct {
@@ -86,10 +91,27 @@ type activation struct {
 	cur   *heap
 	call  ssa.CallInstruction
 	dead  bool
+	work  map[int]bool
+}
+
+// changed schedules the blocks that use v (SSA def-use edges), since register
+// values are kept flow-insensitively.
+func (a *activation) changed(v ssa.Value) {
+	refs := v.Referrers()
+	if refs == nil || a.work == nil {
+		return
+	}
+	for _, ref := range *refs {
+		if b := ref.Block(); b != nil && b.Parent() == a.fn {
+			if _, reached := a.in[b]; reached {
+				a.work[b.Index] = true
+			}
+		}
+	}
 }
 
 func New(pkg *ssa.Package) *Machine {
-	return &Machine{MaxDepth: 4, Pkg: pkg, init: &heap{objs: map[int]*Obj{}}}
+	return &Machine{MaxDepth: 4, Pkg: pkg, init: &heap{objs: map[int]*Obj{}}, MaxSteps: 3000000}
 }
 
 // NewObj allocates an abstract object in the initial heap (before Run).
@@ -119,6 +141,7 @@ func (m *Machine) Depth() int                         { return len(m.stack) }
 func (m *Machine) Run(fn *ssa.Function, args []Val) *Result {
 	m.Events = nil
 	m.Steps = 0
+	m.Exceeded = false
 	return m.eval(fn, args, nil, m.init.clone(), nil)
 }
 
@@ -157,8 +180,13 @@ func (m *Machine) eval(fn *ssa.Function, args, binds []Val, h *heap, call ssa.Ca
 	h.dropPinsOf(fn)
 	a.in[fn.Blocks[0]] = h
 	work := map[int]bool{0: true}
+	a.work = work
 	rets := map[*ssa.Return]*ReturnSite{}
 	for len(work) > 0 {
+		if m.Steps > m.MaxSteps {
+			m.Exceeded = true
+			break
+		}
 		// lowest block index first (reverse-post-order-ish, deterministic)
 		bi := -1
 		for i := range work {
@@ -331,6 +359,9 @@ func pick(b *ssa.BasicBlock, cond bool) *ssa.BasicBlock {
 
 func (m *Machine) propagate(a *activation, from, to *ssa.BasicBlock, work map[int]bool) {
 	changed := false
+	if m.Hooks.Edge != nil {
+		m.Hooks.Edge(m, from, to)
+	}
 	// with duplicate edges (both successors the same block) handle each pred index
 	for idx, p := range to.Preds {
 		if p != from {
@@ -350,6 +381,9 @@ func (m *Machine) propagate(a *activation, from, to *ssa.BasicBlock, work map[in
 			if !has || !sameVal(old, nv) {
 				a.env[phi] = nv
 				changed = true
+				if has {
+					a.changed(phi)
+				}
 			}
 		}
 	}
@@ -415,6 +449,11 @@ func (m *Machine) set(v ssa.Value, x Val) {
 	a := m.act()
 	if old, ok := a.env[v]; ok {
 		x = joinVal(old, x)
+		if !sameVal(old, x) {
+			a.env[v] = x
+			a.changed(v)
+			return
+		}
 	}
 	a.env[v] = x
 }
@@ -601,7 +640,7 @@ func (m *Machine) unop(in *ssa.UnOp) {
 	switch in.Op {
 	case token.MUL: // load
 		v := m.act().cur.load(x, in.Type())
-		if !v.Known() && m.Hooks.Load != nil {
+		if (!v.Known() || allUnknown(v)) && m.Hooks.Load != nil {
 			if hv, ok := m.Hooks.Load(m, in, x); ok {
 				v = hv
 			}
@@ -628,6 +667,21 @@ func (m *Machine) unop(in *ssa.UnOp) {
 	default:
 		m.set(in, U)
 	}
+}
+
+func allUnknown(v Val) bool {
+	if v.K == Unknown {
+		return true
+	}
+	if v.K != Struct {
+		return false
+	}
+	for _, f := range v.Fields {
+		if !allUnknown(f) {
+			return false
+		}
+	}
+	return true
 }
 
 func (m *Machine) typeAssert(in *ssa.TypeAssert) {
@@ -916,11 +970,43 @@ func joinVal(a, b Val) Val {
 		}
 		return Val{K: Slice, Obj: a.Obj, Path: a.Path, Off: -1, OffGE: 0, Len: &Val{}}
 	}
+	if a.K == Addr && b.K == Addr && a.Obj.ID == b.Obj.ID {
+		if pa, la, oka := splitIndex(a.Path); oka {
+			if pb, lb, okb := splitIndex(b.Path); okb && pa == pb {
+				if strings.HasSuffix(a.Path, fmt.Sprintf("[?%d]", la)) && lb >= la {
+					return a // stable
+				}
+				if lb < la {
+					la = lb
+				}
+				if strings.Contains(a.Path, "[?") && lb < la {
+					la = 0
+				}
+				return Val{K: Addr, Obj: a.Obj, Path: fmt.Sprintf("%s[?%d]", pa, la)}
+			}
+		}
+	}
 	// nil-ness survives the join of two different non-nil things
 	if isNonNilVal(a) && isNonNilVal(b) {
 		return Val{K: NonNil}
 	}
 	return U
+}
+
+// splitIndex splits "pre[12]" or "pre[?12]" into ("pre", 12).
+func splitIndex(p string) (pre string, idx int64, ok bool) {
+	if !strings.HasSuffix(p, "]") {
+		return "", 0, false
+	}
+	i := strings.LastIndex(p, "[")
+	if i < 0 {
+		return "", 0, false
+	}
+	body := strings.TrimPrefix(p[i+1:len(p)-1], "?")
+	if _, err := fmt.Sscanf(body, "%d", &idx); err != nil {
+		return "", 0, false
+	}
+	return p[:i], idx, true
 }
 
 func isNonNilVal(v Val) bool {
